@@ -30,3 +30,18 @@ Fixpoint insert_str (x : str) (l : list str) : list str :=
   | y :: l' => if str_ltb y x then y :: insert_str x l' else x :: l
   end.
 Definition sort_strs (l : list str) : list str := fold_right insert_str [] l.
+
+(* structural equality of observations *)
+Fixpoint sexp_eqb (a b : sexp) : bool :=
+  match a, b with
+  | A x, A y => str_eqb x y
+  | I x, I y => Z.eqb x y
+  | Lst l, Lst m =>
+      (fix go (l m : list sexp) : bool :=
+         match l, m with
+         | [], [] => true
+         | x :: l', y :: m' => sexp_eqb x y && go l' m'
+         | _, _ => false
+         end) l m
+  | _, _ => false
+  end.
